@@ -211,6 +211,17 @@ class SFTPFile(BufferedFile):
                 # convert_status already called
         return chunk
 
+    def read(self, size=None):
+        # like Python files: buffered writes reach the server before reading
+        if self._wbuffer.tell():
+            self.flush()
+        return BufferedFile.read(self, size)
+
+    def readline(self, size=None):
+        if self._wbuffer.tell():
+            self.flush()
+        return BufferedFile.readline(self, size)
+
     def settimeout(self, timeout):
         """
         Set a timeout on read/write operations on the underlying socket or
